@@ -419,6 +419,7 @@ func (t *Tokenizer) Tokenize(input []byte) ([]models.TokenWithSpan, error) {
 
 	// Validate input size to prevent DoS attacks
 	if len(input) > MaxInputSize {
+		t.Reset() // a refused call leaves nothing of the previous one behind (Comments)
 		err := errors.InputTooLargeError(int64(len(input)), MaxInputSize, models.Location{Line: 1, Column: 1})
 		metrics.RecordTokenization(time.Since(startTime), len(input), err)
 		return nil, err
@@ -552,6 +553,7 @@ func (t *Tokenizer) Tokenize(input []byte) ([]models.TokenWithSpan, error) {
 func (t *Tokenizer) TokenizeContext(ctx context.Context, input []byte) ([]models.TokenWithSpan, error) {
 	// Check context before starting
 	if err := ctx.Err(); err != nil {
+		t.Reset() // a refused call leaves nothing of the previous one behind (Comments)
 		return nil, err
 	}
 
@@ -560,6 +562,7 @@ func (t *Tokenizer) TokenizeContext(ctx context.Context, input []byte) ([]models
 
 	// Validate input size to prevent DoS attacks
 	if len(input) > MaxInputSize {
+		t.Reset() // a refused call leaves nothing of the previous one behind (Comments)
 		err := errors.InputTooLargeError(int64(len(input)), MaxInputSize, models.Location{Line: 1, Column: 1})
 		metrics.RecordTokenization(time.Since(startTime), len(input), err)
 		return nil, err
